@@ -16,70 +16,77 @@
 EXTENDS SchemaOps, Json
 CONSTANTS MaxA, MaxB, MaxPairs, Modes
 
-VARIABLES s1, s2, b1, b2, e, e2, phase, off
-vars == <<s1, s2, b1, b2, e, e2, phase, off>>
+VARIABLES s1, s2, b1, b2, e, e2, md, phase, off
+vars == <<s1, s2, b1, b2, e, e2, md, phase, off>>
 
 G1(n) == Glob(n)
 Ref(a) == [r |-> TRUE, s |-> a]
 Pool == <<
-  [k |-> "base", d |-> NoDef, tx |-> <<>>],                                                        \* 1
-  [k |-> "term", d |-> G1("X1"), tx |-> <<>>],                                                     \* 2  B(X1)
-  [k |-> "term", d |-> Node("BOOLEAN", <<G1("X1")>>), tx |-> <<>>],                                \* 3  BB(X1)
-  [k |-> "term", d |-> Node("UNION", <<G1("D1"), G1("X1")>>), tx |-> <<>>],                        \* 4  depends on D1
-  [k |-> "term", d |-> G1("X2"), tx |-> <<>>],                                                     \* 5  second base set (may be missing)
-  [k |-> "term", d |-> G1("X1"), tx |-> <<Ref("D1"), Ref("X1")>>],                                 \* 6  text mentions D1 (itself, when it is D1) and X1
-  [k |-> "term", d |-> Node("SET_MINUS", <<G1("D1"), G1("D2")>>), tx |-> <<>>],                    \* 7  two terms
-  [k |-> "term", d |-> Node("DEBOOL", <<Node("ENUM", <<G1("X1")>>)>>), tx |-> <<>>],               \* 8  typed B(X1) through debool({X1})
-  [k |-> "term", d |-> Node("DEBOOL", <<G1("X1")>>), tx |-> <<>>],                                 \* 9  an element of X1 (not a set)
-  [k |-> "term", d |-> G1("X1"), tx |-> <<Ref("D1"), Ref("D2"), Ref("X1")>>]                       \* 10 text mentions D1, D2, X1
+  [k |-> "base", d |-> NoDef, tx |-> <<>>, tm |-> <<>>],                                                        \* 1
+  [k |-> "term", d |-> G1("X1"), tx |-> <<>>, tm |-> <<>>],                                                     \* 2  B(X1)
+  [k |-> "term", d |-> Node("BOOLEAN", <<G1("X1")>>), tx |-> <<>>, tm |-> <<>>],                                \* 3  BB(X1)
+  [k |-> "term", d |-> Node("UNION", <<G1("D1"), G1("X1")>>), tx |-> <<>>, tm |-> <<>>],                        \* 4  depends on D1
+  [k |-> "term", d |-> G1("X2"), tx |-> <<>>, tm |-> <<>>],                                                     \* 5  second base set (may be missing)
+  [k |-> "term", d |-> G1("X1"), tx |-> <<Ref("D1"), Ref("X1")>>, tm |-> <<>>],                                 \* 6  text mentions D1 (itself, when it is D1) and X1
+  [k |-> "term", d |-> Node("SET_MINUS", <<G1("D1"), G1("D2")>>), tx |-> <<>>, tm |-> <<>>],                    \* 7  two terms
+  [k |-> "term", d |-> Node("DEBOOL", <<Node("ENUM", <<G1("X1")>>)>>), tx |-> <<>>, tm |-> <<>>],               \* 8  typed B(X1) through debool({X1})
+  [k |-> "term", d |-> Node("DEBOOL", <<G1("X1")>>), tx |-> <<>>, tm |-> <<>>],                                 \* 9  an element of X1 (not a set)
+  [k |-> "term", d |-> G1("X1"), tx |-> <<Ref("D1"), Ref("D2"), Ref("X1")>>, tm |-> <<>>],          \* 10 text mentions D1, D2, X1
+  [k |-> "term", d |-> G1("X1"), tx |-> <<>>, tm |-> <<Ref("X1")>>],                               \* 11 term names X1
+  [k |-> "term", d |-> G1("X1"), tx |-> <<>>, tm |-> << Ref("D1"), [r |-> FALSE, s |-> "of"] >> ]     \* 12 term names D1
 >>
 PoolA == 1..Len(Pool)
 PoolB == 1..Len(Pool)
 Empty0 == [ord |-> <<>>, c |-> <<>>]
 EmplaceF(S, p, u) ==
   LET a == NewName(p.k, AliasesOf(S.c)) IN
-  [ord |-> InsertAtPos(S.ord, InsPos(S.ord, S.c, p.k), u), c |-> (u :> [NewRec(a, p.k, p.d) EXCEPT !.text = p.tx]) @@ S.c]
+  [ord |-> InsertAtPos(S.ord, InsPos(S.ord, S.c, p.k), u), c |-> (u :> [NewRec(a, p.k, p.d) EXCEPT !.text = p.tx, !.term = p.tm]) @@ S.c]
 FreshIds == <<101, 102, 103, 104, 105, 106>>
 
+KeepDel == {k \in DOMAIN md : md[k] = "del"}
+NewTerm == {k \in DOMAIN md : md[k] = "new"}
 SwapNeeded2(k, v) == LET ck == s1.c[k].kind  cv == s2.c[v].kind IN ck # cv /\ ~IsBaseSetKind(ck) /\ IsBaseNotionKind(cv)
-Init == SInit /\ s1 = Empty0 /\ s2 = Empty0 /\ b1 = <<>> /\ b2 = <<>> /\ e = <<>> /\ e2 = <<>> /\ phase = "a" /\ off = 0
+Init == SInit /\ s1 = Empty0 /\ s2 = Empty0 /\ b1 = <<>> /\ b2 = <<>> /\ e = <<>> /\ e2 = <<>> /\ md = <<>> /\ phase = "a" /\ off = 0
 Next ==
   \/ /\ phase = "a" /\ Len(b1) < MaxA
      /\ \E i \in PoolA : (Len(b1) = 0 => i = 1) /\ s1' = EmplaceF(s1, Pool[i], Len(b1) + 1) /\ b1' = Append(b1, i)
-     /\ UNCHANGED <<s2, b2, e, e2, phase, off>>
+     /\ UNCHANGED <<s2, b2, e, e2, phase, off, md>>
   \/ /\ phase = "a" /\ Len(b1) > 0 /\ "synth" \in Modes
-     /\ \E o \in {0, 10} : off' = o /\ phase' = "b" /\ UNCHANGED <<s1, s2, b1, b2, e, e2>>
-  \/ /\ phase = "a" /\ Len(b1) > 1 /\ "equate" \in Modes /\ phase' = "t1" /\ UNCHANGED <<s1, s2, b1, b2, e, e2, off>>
+     /\ \E o \in {0, 10} : off' = o /\ phase' = "b" /\ UNCHANGED <<s1, s2, b1, b2, e, e2, md>>
+  \/ /\ phase = "a" /\ Len(b1) > 1 /\ "equate" \in Modes /\ phase' = "t1" /\ UNCHANGED <<s1, s2, b1, b2, e, e2, off, md>>
   \/ /\ phase = "b" /\ Len(b2) < MaxB
      /\ \E i \in PoolB : (Len(b2) = 0 => i = 1) /\ s2' = EmplaceF(s2, Pool[i], off + Len(b2) + 1) /\ b2' = Append(b2, i)
-     /\ UNCHANGED <<s1, b1, e, e2, phase, off>>
-  \/ /\ phase = "b" /\ Len(b2) > 0 /\ phase' = "t" /\ UNCHANGED <<s1, s2, b1, b2, e, e2, off>>
+     /\ UNCHANGED <<s1, b1, e, e2, phase, off, md>>
+  \/ /\ phase = "b" /\ Len(b2) > 0 /\ phase' = "t" /\ UNCHANGED <<s1, s2, b1, b2, e, e2, off, md>>
   \* tables: keys ascending (each table is built once); a value may serve two keys only when no pair has to be swapped
   \/ /\ phase = "t" /\ Cardinality(DOMAIN e) < MaxPairs
      /\ \E k \in DOMAIN s1.c, v \in DOMAIN s2.c :
           /\ \A x \in DOMAIN e : x < k
           /\ (\E x \in DOMAIN e : e[x] = v) => (~SwapNeeded2(k, v) /\ \A x \in DOMAIN e : ~SwapNeeded2(x, e[x]))
           /\ e' = (k :> v) @@ e
-     /\ UNCHANGED <<s1, s2, b1, b2, e2, phase, off>>
-  \/ /\ phase = "t" /\ phase' = "done" /\ UNCHANGED <<s1, s2, b1, b2, e, e2, off>>
+     /\ UNCHANGED <<s1, s2, b1, b2, e2, phase, off, md>>
+  \/ /\ phase = "t" /\ phase' = "done" /\ UNCHANGED <<s1, s2, b1, b2, e, e2, off, md>>
   \/ /\ phase = "t1" /\ Cardinality(DOMAIN e) < MaxPairs
-     /\ \E k \in DOMAIN s1.c, v \in DOMAIN s1.c : (\A x \in DOMAIN e : x < k) /\ e' = (k :> v) @@ e
+     /\ \E k \in DOMAIN s1.c, v \in DOMAIN s1.c, m \in {"hier", "del", "new"} :
+          /\ (\A x \in DOMAIN e : x < k) /\ e' = (k :> v) @@ e /\ md' = (k :> m) @@ md
+          \* two keys on one value: their options would compete for the survivor's texts (order of processing) - only the default there
+          /\ (\E x \in DOMAIN e : e[x] = v) => (m = "hier" /\ \A x \in DOMAIN e : e[x] = v => md[x] = "hier")
      /\ UNCHANGED <<s1, s2, b1, b2, e2, phase, off>>
-  \/ /\ phase = "t1" /\ phase' = "done1" /\ UNCHANGED <<s1, s2, b1, b2, e, e2, off>>
+  \/ /\ phase = "t1" /\ phase' = "done1" /\ UNCHANGED <<s1, s2, b1, b2, e, e2, off, md>>
   \* a second table on the result of the first (the same RSForm is equated twice)
   \/ /\ phase = "t1" /\ "equate2" \in Modes /\ DOMAIN e # {} /\ EqAdmissible(s1, e)
-     /\ LET r == Equate(s1, e, {}) IN \E k \in DOMAIN r.c, v \in DOMAIN r.c : k # v /\ e2' = (k :> v)
-     /\ phase' = "done2" /\ UNCHANGED <<s1, s2, b1, b2, e, off>>
+     /\ LET r == EquateM(s1, e, KeepDel, NewTerm) IN \E k \in DOMAIN r.c, v \in DOMAIN r.c : k # v /\ e2' = (k :> v)
+     /\ phase' = "done2" /\ UNCHANGED <<s1, s2, b1, b2, e, off, md>>
 \* the variables of Schema.tla are not used here (schemas are values); they stay empty
 Spec == Init /\ [][Next /\ UNCHANGED svars]_<<vars, svars>>
 
 \* ---------------------------------------------------------------- what is emitted
 Toks(d) == IF d = NoDef THEN <<>> ELSE Render(d, FALSE).t
-Steps(b, o) == [i \in DOMAIN b |-> [uid |-> o + i, k |-> Pool[b[i]].k, d |-> Toks(Pool[b[i]].d), tx |-> Pool[b[i]].tx]]
+Steps(b, o) == [i \in DOMAIN b |-> [uid |-> o + i, k |-> Pool[b[i]].k, d |-> Toks(Pool[b[i]].d), tx |-> Pool[b[i]].tx, tm |-> Pool[b[i]].tm]]
 Items(ord, c) ==
   LET an == Analysis(c) IN
   [i \in DOMAIN ord |-> LET u == ord[i]  r == an[c[u].alias] IN
-     [uid |-> u, alias |-> c[u].alias, kind |-> c[u].kind, d |-> Toks(c[u].def), tx |-> c[u].text, ok |-> r.ok, type |-> IF r.ok THEN TypeStr(r.type) ELSE ""]]
+     [uid |-> u, alias |-> c[u].alias, kind |-> c[u].kind, d |-> Toks(c[u].def), tx |-> c[u].text, tm |-> c[u].term, ok |-> r.ok, type |-> IF r.ok THEN TypeStr(r.type) ELSE ""]]
 PairsOf(f) == LET ks == SetToSeq(DOMAIN f) IN [i \in DOMAIN ks |-> <<ks[i], f[ks[i]]>>]
 SynthCase ==
   LET r == Synth(s1, s2, e, FreshIds) IN
@@ -90,19 +97,20 @@ SynthCase ==
    keys |-> SetToSeq(DOMAIN r.table), mtr |-> PairsOf(r.mtr),
    noDangling1 |-> NoDangling(s1), noDangling2 |-> NoDangling(s2),
    correct |-> FullyCorrect(s1) /\ FullyCorrect(s2), like |-> LikeWithLike(r.merged.c, r.table)]
+Triples == LET ks == SetToSeq(DOMAIN e) IN [i \in DOMAIN ks |-> <<ks[i], e[ks[i]], md[ks[i]]>>]
 EquateCase ==
   LET ok == EqAdmissible(s1, e)
-      r == Equate(s1, e, {}) IN
-  [mode |-> "equate", a |-> Steps(b1, 0), table |-> PairsOf(e), defined |-> ok,
+      r == EquateM(s1, e, KeepDel, NewTerm) IN
+  [mode |-> "equate", a |-> Steps(b1, 0), table |-> Triples, defined |-> ok,
    items |-> IF ok THEN Items(r.ord, r.c) ELSE <<>>,
    tr |-> IF ok THEN PairsOf([u \in DOMAIN s1.c |-> FinalOf(u, r.pairs, 8)]) ELSE <<>>,
    noDangling1 |-> NoDangling(s1), correct |-> FullyCorrect(s1), like |-> LikeWithLike(s1.c, e)]
 Equate2Case ==
-  LET r1 == Equate(s1, e, {})
+  LET r1 == EquateM(s1, e, KeepDel, NewTerm)
       S == [ord |-> r1.ord, c |-> r1.c]
       ok == EqAdmissible(S, e2)
       r == Equate(S, e2, {}) IN
-  [mode |-> "equate2", a |-> Steps(b1, 0), first |-> PairsOf(e), table |-> PairsOf(e2), defined |-> ok,
+  [mode |-> "equate2", a |-> Steps(b1, 0), first |-> Triples, table |-> PairsOf(e2), defined |-> ok,
    items |-> IF ok THEN Items(r.ord, r.c) ELSE <<>>,
    tr |-> IF ok THEN PairsOf([u \in DOMAIN S.c |-> FinalOf(u, r.pairs, 8)]) ELSE <<>>,
    noDangling1 |-> NoDangling(S), correct |-> FullyCorrect(S), like |-> LikeWithLike(S.c, e2)]
